@@ -200,6 +200,10 @@ COMPONENTS = [
               distinct_by_construction=True, exhaustive=True,
               describe='templating-hostile table keys x every way a value can fail x '
                        'nesting position x carrier frame'),
+    Component('hostile-alloc', check_alloc, cases=D.hostile_key_cases,
+              distinct_by_construction=True, exhaustive=True,
+              describe='allocation bound over the hostile-key sweep (incl. repeated '
+                       'names and printf width bombs), with logging really formatting'),
     Component('faulted', check, strategy=D.faulted_cases,
               budget={'quick': 12000, 'thorough': 480000},
               describe='generated wire frames with 1-2 faults'),
